@@ -11,7 +11,7 @@ Env  JSON: {"<slot>":{"i":n,"d":"<bits of the double, decimal>","b":bool}, …}
   {"op":"emit", form}                    -> {"ok":{"ty":T,"lines":[…]}} | {"err":"AssertionError"|…}
        plain: lines = [expr]; cond: the 5 lines of `condLines "R"`; agg: `aggLines "A" "R"`
   {"op":"spec", form, "impl":{"ty":T, "expr":text | "test","then","else" | "seed","accTy","upd",("test","then","else")},
-        "leaves":[[text,ty,slot],…], "samples":[env…] (agg: [[env…]…]), optional "observed":[value…]}
+        "leaves":[[text,ty,slot],…] (ty "size_t": an operand whose C++ type is unsigned, see Spec.lean `evalX`), "samples":[env…] (agg: [[env…]…]), optional "observed":[value…]}
        -> {"holds":bool|null,"why":…,"mustAccept":bool,"excluded":bool,"rows":[{"c":V,"py":V,"cpy":V,"model":V,"inq":bool}…]}
      the Spec evaluated on what the IMPLEMENTATION emitted (its text parsed here and run under `evalC`), or, when
      "observed" is given, on the values the compiled job printed.
@@ -142,6 +142,9 @@ structure LeafInfo where
   text : String
   ty : CT
   slot : Nat
+  /-- the operand's C++ type is `std::size_t` (the implementation took the value from an unsigned expression);
+  `ty` is then what it *declared* the value as -/
+  uns : Bool := false
 
 def isIdChar (c : Char) : Bool := c.isAlphanum || c == '_'
 
@@ -231,7 +234,11 @@ def leavesOf (j : Json) : Except String (List LeafInfo) := do
   let a ← j.getArr?
   let l ← a.toList.mapM fun x => do
     let x ← x.getArr?
-    pure ({ text := ← x[0]!.getStr?, ty := ← ctOf (← x[1]!.getStr?), slot := ← x[2]!.getNat? } : LeafInfo)
+    let tn ← x[1]!.getStr?
+    if tn == "size_t" then
+      pure ({ text := ← x[0]!.getStr?, ty := .int, slot := ← x[2]!.getNat?, uns := true } : LeafInfo)
+    else
+      pure ({ text := ← x[0]!.getStr?, ty := ← ctOf tn, slot := ← x[2]!.getNat? } : LeafInfo)
   pure (l.toArray.qsort (fun a b => a.text.length > b.text.length)).toList
 
 /-! ### forms -/
@@ -380,11 +387,13 @@ def implOf (leaves : List LeafInfo) (f : FormE) (j : Json) : Except String ImplC
     return .agg { accTy := accTy, seed := ← txt "seed", cond := c, updRhs := ← txt "upd" }
 
 /-- what the emitted code leaves in the column (declared `ty`) -/
-def runImpl (c : ImplCode) (envs : List (Env F)) : Option (CV F) :=
+def runImpl (uns : Nat → Bool) (anyUns : Bool) (c : ImplCode) (envs : List (Env F)) : Option (CV F) :=
   match c, envs with
-  | .plain ty e, [env] => (evalC env e).map (convert ty)
-  | .cond ty o, [env] => (evalCondC env o).map (convert ty)
+  | .plain ty e, [env] => storeX uns env ty e
+  | .cond ty o, [env] => (evalCondX uns env o).map (convert ty)
   | .agg o, base :: elems =>
+    -- the operands of an update lambda are element accessors and the accumulator: no unsigned operand is read there
+    if anyUns then none else
     match initAggC o base with
     | some a => runAggC ifSlot o a elems
     | none => none
@@ -471,7 +480,7 @@ def specOn (j : Json) : Except String Json := do
         | some o => if o.isNull then pure none else do pure (some (← cvOf o))
         | none => pure none
       | none => match code with
-        | .ok c => pure (runImpl c envs)
+        | .ok c => pure (runImpl (fun i => leaves.any (fun l => l.uns && l.slot == i)) (leaves.any (·.uns)) c envs)
         | .error _ => pure none
     rows := rows.push (Json.mkObj [("c", optJson cvJson c), ("py", optJson pvJson py), ("cpy", optJson pvJson cpy),
       ("model", optJson cvJson model), ("inq", inq)])
